@@ -596,10 +596,12 @@ pub fn replay(sh: &mut Shards, path: &str) {
         let mut finished = false;
         for c in v["calls"].as_array().unwrap() {
             let end = c[0].as_u64().unwrap() as usize;
-            let cap = c[1].as_u64().unwrap() as usize;
+            // a negative capacity means "the value the matching max_*_buffer_length query returns now"
+            let capi = c[1].as_i64().unwrap();
+            let cap = if capi < 0 { lastcap } else { capi as usize };
             let last = c[2].as_bool().unwrap();
             lastcap = cap;
-            let o = h.step(sh, &stream, end, CapSpec::Fixed(cap), last);
+            let o = h.step(sh, &stream, end, if capi < 0 { CapSpec::Query(0) } else { CapSpec::Fixed(cap) }, last);
             if h.dead {
                 break;
             }
